@@ -159,5 +159,9 @@ pub(crate) fn resolve_partial<Fd: AsFd>(
         }
     }
 
-    unreachable!("partial_ancestors should include root path which must be resolvable");
+    // partial_ancestors() ends with the root itself, which exists by
+    // definition -- but resolving it can still fail for reasons that have
+    // nothing to do with the path (EMFILE, ENOMEM, ...), so this is an error
+    // the caller has to deal with and not a bug.
+    Err(last_error)
 }
